@@ -92,7 +92,11 @@ def run_history(label, lost_seq, workers, fname='valjean.env'):
         prev_counts = first
         for k, lost in enumerate(lost_seq):
             for nm in lost:
-                os.remove(os.path.join(root, nm, fname))
+                if nm.startswith('!'):
+                    shutil.rmtree(os.path.join(root, nm[1:]))          # the whole output directory of the task is wiped, not only its environment file
+                else:
+                    os.remove(os.path.join(root, nm, fname))
+            lost = tuple(nm.lstrip('!') for nm in lost)
             env = RunCommand().execute(args, config)
             counts = _counts(tmp, names)
             ran = {nm for nm in names if counts[nm] != prev_counts[nm]}
@@ -163,6 +167,7 @@ def histories(label, tier):
     out = [[()], [(), ()]]
     out += [[(nm,)] for nm in names]
     out += [[(nm,), ()] for nm in names[:2]]
+    out += [[('!' + nm,)] for nm in names]              # the output directory of one task wiped between the runs
     if tier != 'quick':
         out += [[(a, b)] for a in names for b in names if a < b]
         out += [[(a,), (b,)] for a in names for b in names]
@@ -194,7 +199,7 @@ def sweep(tier, seed):
                               'expected': 'the tasks behind a hard edge are skipped, the others run once'})
     return {'name': 'rerun-command-native', 'evaluations': n, 'distinct': n, 'failures': fails[:8], 'exhaustive': False,
             'bound': f'`valjean run` (RunCommand.execute) 2-3 times on one output directory for {len(SHAPES)} jobs of 1-4 tasks (hard chain, soft edges only, mixed, diamond, tasks '
-                     'without any edge); between runs nothing / one task (quick) or up to two tasks (thorough) lose their persisted environment file; executions counted '
+                     'without any edge); between runs nothing / one task (quick) or up to two tasks (thorough) lose their persisted environment file, or one task loses its whole output directory; executions counted '
                      'by the tasks themselves; entries and clocks compared between runs; plus one run per job and task in which that task fails (hard dependents skipped, soft dependents run)',
             'samples': [{'job': 'hard and soft edges, a soft-only dependent, an isolated task', 'persisted_environment_lost_before_each_later_run': [[]]}]}
 
